@@ -506,6 +506,13 @@ static int32_t pstm_mul_comba16(const pstm_int *A, const pstm_int *B, pstm_int *
     MULADD(at[15], at[31]);
     COMBA_STORE(C->dp[30]);
     COMBA_STORE2(C->dp[31]);
+    {
+        int32 ix;
+        for (ix = 32; ix < C->used; ix++)
+        {
+            C->dp[ix] = 0; /* clear digits of the previous value */
+        }
+    }
     C->used = 32;
     C->sign = A->sign ^ B->sign;
     pstm_clamp(C);
@@ -808,6 +815,13 @@ static int32_t pstm_mul_comba32(const pstm_int *A, const pstm_int *B, pstm_int *
     MULADD(at[31], at[63]);
     COMBA_STORE(C->dp[62]);
     COMBA_STORE2(C->dp[63]);
+    {
+        int32 ix;
+        for (ix = 64; ix < C->used; ix++)
+        {
+            C->dp[ix] = 0; /* clear digits of the previous value */
+        }
+    }
     C->used = 64;
     C->sign = A->sign ^ B->sign;
     pstm_clamp(C);
